@@ -20,6 +20,21 @@ package main
 //@   trusted
 //@   assigns nothing
 //@
+//@ specfun CfgSourceFile(c config.Config) string
+//@ func config.(Config).SourceFile
+//@   trusted
+//@   ensures [fun] result == CfgSourceFile(recv)
+//@   assigns nothing
+//@
+//@ package md
+//@ specfun MdSource(name string) string
+//@ specfun MdErr(name string) error
+//@ func md.GetSource
+//@   nobody
+//@   # its own contract is verified in internal/util/md; here only: the result is a function of the file name
+//@   ensures [fun] result0 == MdSource(mdfile) && result1 == MdErr(mdfile)
+//@   assigns nothing
+//@
 //@ package io
 //@ func io.WriteFileString
 //@   trusted
@@ -37,4 +52,14 @@ package main
 //@   prop C04
 //@   panics [exit-policy] len(conflicts) > 0 && !CfgAuto(cfg)
 //@   exit_code [non-zero] code % 256 != 0
+//@   assigns nothing
+//@
+//@ # C19: a file whose name ends in .md is read through md.GetSource, any other file as it is; a read error ends gocc
+//@ # with a non-zero status
+//@ func getSource
+//@   prop C19
+//@   panics [read-error] (HasSuffixF(CfgSourceFile(cfg), ".md") && MdErr(CfgSourceFile(cfg)) != nil) || (!HasSuffixF(CfgSourceFile(cfg), ".md") && FileErr(CfgSourceFile(cfg)) != nil)
+//@   exit_code [non-zero] code % 256 != 0
+//@   ensures [markdown] imp(HasSuffixF(CfgSourceFile(cfg), ".md"), decodes(result, MdSource(CfgSourceFile(cfg))))
+//@   ensures [plain] imp(!HasSuffixF(CfgSourceFile(cfg), ".md"), FileIs(view(result), len(result), CfgSourceFile(cfg)))
 //@   assigns nothing
